@@ -454,6 +454,8 @@ pub struct Report {
     pub assumptions: Vec<String>,
     pub extra: BTreeMap<String, Value>,
     pub quiet: bool,
+    /// running another property's stages as part of a union (quick tier: main configurations only)
+    pub secondary: bool,
 }
 
 impl Report {
@@ -472,6 +474,18 @@ impl Report {
             assumptions: vec![],
             extra: BTreeMap::new(),
             quiet: false,
+            secondary: false,
+        }
+    }
+    pub fn stages_len(&self) -> usize {
+        self.stages.len()
+    }
+    /// prefix the names of the stages recorded since `from`
+    pub fn prefix_stages(&mut self, from: usize, prefix: &str) {
+        for st in self.stages.iter_mut().skip(from) {
+            if let Some(n) = st.get("stage").and_then(|x| x.as_str()).map(|x| x.to_string()) {
+                st["stage"] = json!(format!("{}{}", prefix, n));
+            }
         }
     }
     /// record a completed stage (a finite space enumerated completely)
